@@ -7,6 +7,7 @@ import (
 	"fmt"
 	"math/rand"
 	"os"
+	"runtime"
 	"sync"
 
 	"github.com/unixpickle/model3d/model3d"
@@ -393,6 +394,16 @@ func lattice3(r *vlib.Run) {
 		m := ms[rng.Intn(len(ms))]
 		runPacked(c, "wide", [][]bool{pat}, dims, []method{ms[0], m})
 		c.Max("mc.wide.longest_axis", float64(long))
+	})
+	// the process restricted to one P (GOMAXPROCS=1, a one-CPU container): the scanners' worker
+	// hand-offs degenerate; same oracle
+	r.Section("mc.singleproc", r.N(12, 120), vlib.SectionOpts{Sequential: true}, func(c *vlib.Case) {
+		old := runtime.GOMAXPROCS(1)
+		defer runtime.GOMAXPROCS(old)
+		n := 4 + c.Rng.Intn(6)
+		dims := [3]int{n, 3 + c.Rng.Intn(n), 3 + c.Rng.Intn(n)}
+		pat := randomLattice(c.Rng, dims)
+		runPacked(c, "singleproc", [][]bool{pat}, dims, []method{ms[0], ms[1+c.Rng.Intn(len(ms)-1)]})
 	})
 	// coarse-to-fine on smooth solids (lattice solids violate its documented precondition)
 	r.Section("mc.c2f", r.N(12, 100), vlib.SectionOpts{}, func(c *vlib.Case) {
